@@ -3,14 +3,14 @@ namespace Adf
 
 /-- equal up to the access log -/
 def EqUpToLog (a b : St) : Prop :=
-  a.disk = b.disk ∧ a.ioCount = b.ioCount ∧ a.faultAt = b.faultAt ∧ a.faultEvery = b.faultEvery ∧
+  a.disk = b.disk ∧ a.ioCount = b.ioCount ∧ a.faultAt = b.faultAt ∧ a.faultEvery = b.faultEvery ∧ a.faultCount = b.faultCount ∧
   a.faultsFired = b.faultsFired ∧ a.clock = b.clock ∧ a.mem = b.mem
 
 theorem eqUpToLog_iff (a b : St) : EqUpToLog a b ↔ a = { b with trace := a.trace } := by
   constructor
-  · rintro ⟨h1, h2, h3, h4, h5, h6, h7⟩
+  · rintro ⟨h1, h2, h3, h4, h4', h5, h6, h7⟩
     cases a; cases b; simp_all
-  · intro h; rw [h]; exact ⟨rfl, rfl, rfl, rfl, rfl, rfl, rfl⟩
+  · intro h; rw [h]; exact ⟨rfl, rfl, rfl, rfl, rfl, rfl, rfl, rfl⟩
 
 theorem prim_log_independent (c : Cfg) {β : Type} (pr : Prim β) (b : St) (t : List Ev) :
     (runPrim c pr { b with trace := t }).1 = (runPrim c pr b).1 ∧
@@ -19,39 +19,39 @@ theorem prim_log_independent (c : Cfg) {β : Type} (pr : Prim β) (b : St) (t : 
   | volRead v n =>
     simp only [runPrim, devReadRaw, St.tick, St.sector]
     split
-    · exact ⟨rfl, rfl, rfl, rfl, rfl, rfl, rfl, rfl⟩
+    · exact ⟨rfl, rfl, rfl, rfl, rfl, rfl, rfl, rfl, rfl⟩
     · split
-      · exact ⟨rfl, rfl, rfl, rfl, rfl, rfl, rfl, rfl⟩
+      · exact ⟨rfl, rfl, rfl, rfl, rfl, rfl, rfl, rfl, rfl⟩
       · split
-        · exact ⟨rfl, rfl, rfl, rfl, rfl, rfl, rfl, rfl⟩
-        · split <;> exact ⟨rfl, rfl, rfl, rfl, rfl, rfl, rfl, rfl⟩
+        · exact ⟨rfl, rfl, rfl, rfl, rfl, rfl, rfl, rfl, rfl⟩
+        · split <;> exact ⟨rfl, rfl, rfl, rfl, rfl, rfl, rfl, rfl, rfl⟩
   | volWrite v n d =>
     simp only [runPrim, devWriteRaw, St.tick]
     split
-    · exact ⟨rfl, rfl, rfl, rfl, rfl, rfl, rfl, rfl⟩
+    · exact ⟨rfl, rfl, rfl, rfl, rfl, rfl, rfl, rfl, rfl⟩
     · split
-      · exact ⟨rfl, rfl, rfl, rfl, rfl, rfl, rfl, rfl⟩
+      · exact ⟨rfl, rfl, rfl, rfl, rfl, rfl, rfl, rfl, rfl⟩
       · split
-        · exact ⟨rfl, rfl, rfl, rfl, rfl, rfl, rfl, rfl⟩
+        · exact ⟨rfl, rfl, rfl, rfl, rfl, rfl, rfl, rfl, rfl⟩
         · split
-          · exact ⟨rfl, rfl, rfl, rfl, rfl, rfl, rfl, rfl⟩
-          · split <;> exact ⟨rfl, rfl, rfl, rfl, rfl, rfl, rfl, rfl⟩
+          · exact ⟨rfl, rfl, rfl, rfl, rfl, rfl, rfl, rfl, rfl⟩
+          · split <;> exact ⟨rfl, rfl, rfl, rfl, rfl, rfl, rfl, rfl, rfl⟩
   | devRead n size =>
     simp only [runPrim, devReadRaw, St.tick, St.sector]
     split
-    · exact ⟨rfl, rfl, rfl, rfl, rfl, rfl, rfl, rfl⟩
-    · split <;> exact ⟨rfl, rfl, rfl, rfl, rfl, rfl, rfl, rfl⟩
+    · exact ⟨rfl, rfl, rfl, rfl, rfl, rfl, rfl, rfl, rfl⟩
+    · split <;> exact ⟨rfl, rfl, rfl, rfl, rfl, rfl, rfl, rfl, rfl⟩
   | devWrite n size d =>
     simp only [runPrim, devWriteRaw, St.tick]
     split
-    · exact ⟨rfl, rfl, rfl, rfl, rfl, rfl, rfl, rfl⟩
+    · exact ⟨rfl, rfl, rfl, rfl, rfl, rfl, rfl, rfl, rfl⟩
     · split
-      · exact ⟨rfl, rfl, rfl, rfl, rfl, rfl, rfl, rfl⟩
-      · split <;> exact ⟨rfl, rfl, rfl, rfl, rfl, rfl, rfl, rfl⟩
-  | getCfg => exact ⟨rfl, rfl, rfl, rfl, rfl, rfl, rfl, rfl⟩
-  | getMem => exact ⟨rfl, rfl, rfl, rfl, rfl, rfl, rfl, rfl⟩
-  | setMem m => exact ⟨rfl, rfl, rfl, rfl, rfl, rfl, rfl, rfl⟩
-  | now => exact ⟨rfl, rfl, rfl, rfl, rfl, rfl, rfl, rfl⟩
+      · exact ⟨rfl, rfl, rfl, rfl, rfl, rfl, rfl, rfl, rfl⟩
+      · split <;> exact ⟨rfl, rfl, rfl, rfl, rfl, rfl, rfl, rfl, rfl⟩
+  | getCfg => exact ⟨rfl, rfl, rfl, rfl, rfl, rfl, rfl, rfl, rfl⟩
+  | getMem => exact ⟨rfl, rfl, rfl, rfl, rfl, rfl, rfl, rfl, rfl⟩
+  | setMem m => exact ⟨rfl, rfl, rfl, rfl, rfl, rfl, rfl, rfl, rfl⟩
+  | now => exact ⟨rfl, rfl, rfl, rfl, rfl, rfl, rfl, rfl, rfl⟩
 
 theorem run_log_independent (c : Cfg) : ∀ {α : Type} (p : Prog α) (a b : St), EqUpToLog a b →
     (run c p a).1 = (run c p b).1 ∧ EqUpToLog (run c p a).2 (run c p b).2 := by
